@@ -110,6 +110,18 @@ PROPS.update({
         "level_text": "uncompress / uncompress_with_previous_offset are proved to succeed exactly on accepted packets and to return uncompress_spec(p) (record by record: owner and rdata names expanded, RDLENGTH rewritten, everything else including OPT verbatim) together with the position of the carried record boundary (bmap); theorem_c05 and the lemmas of spec/pfedit.rs prove for that spec function: the output is accepted, pointer-free (pf_packet), has the identical header, is a fixed point of decompression, and record k of a section is carried to record k of the output",
         "technique": "Verus functional contract of the extracted decompressor against a recursive spec function, section loops verified through the iterator contracts",
     },
+    "C06": {
+        "title": "Compression keeps the message, stays valid and never grows the packet",
+        "units": ["U7", "U1"],
+        "cone": {"U1": [r"DNSSector::(parse|parse_rr|parse_opt|parse_question|new)$"],
+                 "U7": [r"Compress::(compress|compress_rdata|copy_compressed_name|copy_compressed_name_with_base_offset|indirections|raw_name_len|raw_name_len_after_decompression)$", r"SuffixDict::", r"Default for Suffix", r"spec/(dict|rename|locality|names|pfpacket|reader|iter)\\.rs", r"ResponseIterator::", r"QuestionIterator::", r"ParsedPacket::into_iter_"]},
+        "witness": ("c06", 3000),
+        "level": "proof", "design_ref": "DESIGN.md section 5 C06",
+        "assumptions": U1_ASSUME + ["#[derive(Default)] on SuffixDict yields count == 0 and index == 0 (assumed specification of the derived impl)",
+                                     "units with iterator client loops are verified with --no-lifetime"],
+        "level_text": "PARTIAL proof: (F1) representation invariant of the suffix dictionary, (F2) insert against the abstract view (hit: some live entry equals the suffix up to ASCII case, nothing changes; miss: exactly slot `index` is replaced, every other slot untouched), (F3) the offset remembered for a suffix is its position in the OUTPUT, (F4) what the name emitter appends is whole labels followed by nothing or one pointer below 0x4000 that stands for at least 3 bytes, (F5) a compressed name/record/packet is never longer than the original, (F6) every record of every section is re-emitted, OPT included, (F7) the RDLENGTH written back equals the data bytes emitted; compress() succeeds exactly on accepted packets and copies the header. NOT proved by contracts: that a pointer designates the suffix it stands for in the output, that the result is accepted, and message equality -- these clauses are exercised only by the differential replay (compress, re-parse, compare, decompress)",
+        "technique": "Verus data-structure invariant + view-based postconditions for the dictionary; frame/length/count contracts for the emitter and the section loops; remaining clauses by differential replay (stated)",
+    },
     "C13": {
         "title": "Record text synthesises to the right wire record; bad text is an error",
         "units": ["U5"],
